@@ -101,15 +101,16 @@ def _quantity(draw, c, spend=True):
 
 
 def _hard_target(draw, c, s, from_year, zero_progs=()):
-    cls = draw(st.sampled_from(["atmost", "atleast", "incby", "decby", "decby"]))
+    zero_case = bool(zero_progs) and not _one_in(draw, 4)
+    cls = draw(st.sampled_from(["decby", "decby", "decby", "incby"] if zero_case else ["atmost", "atleast", "incby", "decby", "decby"]))
     m = {"cls": cls}
     if cls in ("atmost", "atleast"):
         m["name"] = _quantity(draw, c, spend=False)
         m["thr"] = draw(st.sampled_from([1.0, 1.001, 1.05, 2.0, 0.9] if cls == "atmost" else [1.0, 0.999, 0.95, 0.5, 1.1]))
     else:
         # relative to the value under the caller's instructions; with unfunded programs that value is exactly 0 for their spending and for the flows only they drive
-        m["name"] = draw(st.sampled_from(list(zero_progs) + c["flows"])) if (zero_progs and not _one_in(draw, 3)) else _quantity(draw, c)
-        m["target_type"] = draw(st.sampled_from(["frac", "frac", "abs"]))
+        m["name"] = draw(st.sampled_from(list(zero_progs) * 3 + c["flows"])) if zero_case else _quantity(draw, c)
+        m["target_type"] = draw(st.sampled_from(["frac", "frac", "frac", "abs"]))
         m["amount"] = draw(st.sampled_from([0.0, 0.0, 0.001, 0.05, 0.5]))
     spend = m["name"] in [p for p, _ in c["progs"]]
     m["t"] = _tspec(draw, s, from_year)
@@ -131,7 +132,7 @@ def _measurables(draw, c, s, from_year, zero_progs=()):
 def _alloc(draw, c, start_year):
     """allocation of the caller's instructions: copied from the progset / absent / one value per program / time series whose values
     differ between the years (mode 'series': in the instructions, mode 'book': in the program book's spending data, no overwrite)"""
-    mode = draw(st.sampled_from(["progset", "progset", "none", "dict", "unfunded", "unfunded", "series", "series", "series", "book"]))
+    mode = draw(st.sampled_from(["progset", "progset", "none", "dict", "unfunded", "unfunded", "unfunded", "series", "series", "series", "book"]))
     vals = {}
     if mode in ("dict", "unfunded"):
         zero = mode == "unfunded"  # some programs unfunded at the start (quantities that are exactly 0 under the caller's instructions)
@@ -355,10 +356,15 @@ def differential_cases(draw):
     s = _settings(draw, c, False)
     start_year = draw(st.sampled_from([2017.0, 2018.0, 2019.0]))
     alloc = _alloc(draw, c, start_year)
+    base_alloc = _alloc(draw, c, start_year)  # the 'original instructions' that relative targets refer to (may leave programs unfunded)
+    zero_progs = [p for p, tv in base_alloc["vals"].items() if base_alloc["mode"] in ("dict", "unfunded") and tv[1][0] == 0.0]
     meas = []
     for _ in range(draw(st.integers(1, 4))):
+        if zero_progs and _one_in(draw, 2):
+            meas.append(_hard_target(draw, c, s, start_year, zero_progs))
+            continue
         cls = draw(st.sampled_from(["plain", "min", "max", "atmost", "atleast", "incby", "decby"]))
-        name = _quantity(draw, c, spend=cls in ("plain", "min", "max"))
+        name = _quantity(draw, c, spend=cls in ("plain", "min", "max", "incby", "decby"))
         spend = name in [p for p, _ in c["progs"]]
         m = {"cls": cls, "name": name, "t": _tspec(draw, s, start_year), "pops": None if spend else _pops(draw, c, 2)}
         if cls == "plain":
@@ -369,7 +375,6 @@ def differential_cases(draw):
             m["target_type"] = draw(st.sampled_from(["frac", "frac", "abs"]))
             m["amount"] = draw(st.sampled_from([0.0, 0.001, 0.01, 0.05, 0.5]))
         meas.append(m)
-    base_alloc = _alloc(draw, c, start_year)  # the 'original instructions' that relative targets refer to (may leave programs unfunded)
     return {"kind": "objective-differential", "model": model, "settings": s, "start_year": start_year, "alloc": alloc, "base_alloc": base_alloc, "meas": meas}
 
 
